@@ -25,7 +25,8 @@ CaseOf(k) ==
     [pattern |-> k.pattern, cMin |-> k.cMin, cMax |-> k.cMax, sMin |-> k.sMin,
      sMax |-> k.sMax, pwEq |-> k.pwEq, iExpect |-> k.iExpect, rExpect |-> k.rExpect,
      payload |-> PayloadOf(k.payloadClass), verSub |-> k.verSub,
-     corruptAct |-> k.corruptAct, corruptField |-> k.corruptField]
+     corruptAct |-> k.corruptAct, corruptField |-> k.corruptField,
+     imp |-> IF "imp" \in DOMAIN k THEN k.imp ELSE 0]
 
 \* the remote static key each side's connection data holds afterwards
 RemoteI(c, o) == IF c.pattern = KK THEN (IF c.iExpect = "sR" THEN "sR" ELSE "other")
